@@ -1,14 +1,16 @@
 package props
 
 import (
-	"os"
 	"bytes"
 	"encoding/json"
 	"fmt"
+	"github.com/unravelin/null"
+	"os"
 	"reflect"
 	"runtime"
 	"runtime/metrics"
 	"sort"
+	"time"
 	"unsafe"
 
 	"github.com/philpearl/plenc"
@@ -183,6 +185,50 @@ func c04Targets(tier string) []*c04Target {
 		&withJSON{M: map[string]any{"a": 1, "b": "s", "c": 1.5, "d": true, "e": nil, "f": []any{1, "x", nil, map[string]any{"k": json.Number("12")}}, "g": map[string]any{}}, A: []any{"x", 2, nil}, Z: 7},
 		&withJSON{M: map[string]any{"": []any{}}, A: []any{map[string]any{"k": []any{false}}}},
 	}, true, 48)
+	// every null type, in fields, behind pointers and as map values, and the BigQuery timestamp codec
+	// (registered under the tag name the README uses) - their Read methods have error paths of their own
+	type nulls struct {
+		I  null.Int               `plenc:"1"`
+		B  null.Bool              `plenc:"2"`
+		F  null.Float             `plenc:"3"`
+		S  null.String            `plenc:"4"`
+		T  null.Time              `plenc:"5"`
+		Q  time.Time              `plenc:"6,flattime"`
+		P  *null.Int              `plenc:"7"`
+		M  map[string]null.String `plenc:"8"`
+		LQ []null.Int             `plenc:"9"`
+		SI null.String            `plenc:"10,intern"`
+	}
+	nullsP := func() *plenc.Plenc {
+		p := NewPlenc(ref.Cfg{})
+		p.RegisterCodecWithTag(reflect.TypeOf(time.Time{}), "flattime", plenccodec.BQTimestampCodec{})
+		return p
+	}
+	{
+		pi := null.IntFrom(-3)
+		vals := []any{&nulls{}, &nulls{I: null.IntFrom(7), B: null.BoolFrom(true), F: null.FloatFrom(1.5), S: null.StringFrom("s"), T: null.TimeFrom(time.Unix(5, 6).UTC()),
+			Q: time.Unix(1600000000, 5000).UTC(), P: &pi, M: map[string]null.String{"k": null.StringFrom("v"), "": {}}, LQ: []null.Int{null.IntFrom(1), {}}, SI: null.StringFrom("i")},
+			&nulls{I: null.IntFrom(0), B: null.BoolFrom(false), F: null.FloatFrom(0), S: null.StringFrom(""), T: null.TimeFrom(time.Time{}), SI: null.StringFrom("")}}
+		tg := &c04Target{name: "nulls+bqtimestamp", rt: reflect.TypeOf(nulls{}), newP: nullsP, eltSize: 256}
+		p := nullsP()
+		for _, v := range vals {
+			b, err := p.Marshal(nil, v)
+			if err != nil {
+				panic(err)
+			}
+			var toks [][]byte
+			for i := range b {
+				toks = append(toks, b[i:i+1])
+			}
+			tg.corpus = append(tg.corpus, toks)
+		}
+		for i := 1; i <= 10; i++ {
+			for wt := 0; wt < 8; wt++ {
+				tg.tags = append(tg.tags, byte(i<<3|wt))
+			}
+		}
+		out = append(out, tg)
+	}
 	return out
 }
 
@@ -443,10 +489,8 @@ func (r *c04Run) decode(path string, in []byte) (res string, n int, readErr erro
 		if r.tg.model != nil {
 			return "ok:" + ref.Str(r.tg.model, ref.FromReflect(r.tg.model, out.Elem())), 0, nil
 		}
-		if j, err := json.Marshal(out.Interface()); err == nil {
-			return "ok:" + string(j), 0, nil
-		}
-		return fmt.Sprintf("ok:%+v", out.Elem().Interface()), 0, nil
+		// a deterministic deep rendering (encoding/json fails on NaN / Inf, fmt prints pointer addresses)
+		return "ok:" + canon(out.Elem()), 0, nil
 	case "read":
 		out := reflect.New(r.tg.rt)
 		n, err := r.codec.Read(in, out.UnsafePointer(), r.codec.WireType())
@@ -524,7 +568,24 @@ func (r *c04Run) one(kind string, in []byte) {
 					}
 				}
 				if w := sched.Work - w0; w > uint64(workPerByte*(n+1)+workSlack) {
-					c.Violation(pre+"work-not-linear-in-input", fmt.Sprintf("input %s (%d bytes): %d library function calls, bound %d", hx(in), n, w, workPerByte*(n+1)+workSlack))
+					// is it this input, or what the instance has been through before? Repeat on a fresh
+					// instance that has only built its codecs and decoded one valid encoding.
+					saveP, saveC := r.p, r.codec
+					r.p = r.tg.newP()
+					r.codec, _ = r.p.CodecForType(r.tg.rt)
+					if len(r.tg.corpus) > 0 {
+						c.Guard(pre, func() { r.decode(path, bytes.Join(r.tg.corpus[0], nil)) })
+					}
+					w1 := sched.Work
+					c.Guard(pre, func() { r.decode(path, buf) })
+					w2 := sched.Work - w1
+					if w2 > uint64(workPerByte*(n+1)+workSlack) {
+						c.Violation(pre+"work-not-linear-in-input", fmt.Sprintf("input %s (%d bytes): %d library function calls and loop iterations on a fresh instance, bound %d", hx(in), n, w2, workPerByte*(n+1)+workSlack))
+						r.p, r.codec = saveP, saveC
+					} else {
+						// the fresh instance replaces the old one: the cost came from the old one's history
+						c.Violation(pre+"work-depends-on-instance-history", fmt.Sprintf("input %s (%d bytes): %d units of work on the long-lived instance (after %d earlier inputs), %d on a fresh one", hx(in), n, w, r.inputs, w2))
+					}
 				} else if q := int64(w) * 100 / int64(n+1); n >= 64 && q > r.maxWork {
 					r.maxWork = q
 				}
